@@ -15,7 +15,7 @@ def run(repo, res, tier):
     effects.rule_e1(repo, res)
     effects.rule_e2(repo, res)
     effects.rule_e3(repo, res)
-    effects.rule_estate(repo, res, families=("PVLParser",))
+    effects.rule_estate(repo, res, families=("PVLParser",), floor=2)
     an = parserules.analyse(repo)
     t4 = parserules.add_rule(res, an, "T4")
     t4keys = {f"{f.function} `{f.anchor}`" for f in t4}
